@@ -252,19 +252,33 @@ class Printer(BasePrinter):
         # printed.
         # A printer may be reused to print the same region more than once, in which
         # case the blocks already have names and must keep them.
+        entry_block = region.blocks.first
+        if entry_block is not None:
+            print_entry_block_args = (
+                # A block that is branched to needs its label to be printed
+                (bool(entry_block.args) or entry_block.first_use is not None)
+                and print_entry_block_args
+            ) or (not entry_block.ops and print_empty_block)
+
         for block_index, block in enumerate(region.blocks):
             if block not in self._blocks:
-                self._populate_block_name(block, block_index)
+                if (
+                    block is entry_block
+                    and not print_entry_block_args
+                    and block.first_use is None
+                ):
+                    # The label of this block is never printed, so its name hint must
+                    # not take a name away from the blocks that are
+                    self._blocks[block] = f"bb{block_index}"
+                else:
+                    self._populate_block_name(block, block_index)
 
         # Empty region
         with self.in_braces():
-            if (entry_block := region.blocks.first) is None:
+            if entry_block is None:
                 self._print_new_line()
                 return
 
-            print_entry_block_args = (
-                bool(entry_block.args) and print_entry_block_args
-            ) or (not entry_block.ops and print_empty_block)
             self.print_block(
                 entry_block,
                 print_block_args=print_entry_block_args,
